@@ -11,8 +11,8 @@ from vt.run import Part, HarnessError
 
 ID = "C15"
 LEVEL = "exploration"
-RULE = ("A case is a call history given as data: {start: flat|tree, profile: all|clean, ops: [...]} over a fixed universe of 67 named "
-        "objects (two documents with two elements of each of the 12 content kinds and three regions each - rA and rB registered, rA2 "
+RULE = ("A case is a call history given as data: {start: flat|tree, profile: all|clean, ops: [...]} over a fixed universe of {NN} named "
+        "objects (two documents with two elements of each of the 12 content kinds - three divs and spans - and three regions each - rA and rB registered, rA2 "
         "sharing rA's id - plus 13 detached objects); the check rebuilds the universe for every case ('tree' first replays a fixed "
         "prelude that assembles body>div>p>span>text, a br and a ruby in d1 and references region A) and interprets the calls. After "
         "every call, accepted or rejected, the invariant walker and the abstract-model comparison run; the history stops at the first "
@@ -84,6 +84,9 @@ ALPHABET = [
   ("push_child", "d1.div1", "x.p1"),
   ("push_child", "x.div1", "x.p1"),
   ("push_child", "d1.div1", "d1.div1"),
+  ("push_child", "d1.div2", "d1.div3"),
+  ("push_child", "d1.div3", "d1.div1"),
+  ("push_child", "d1.div3", "d1.div2"),
   ("push_child", "d1.ruby1", "d1.rb1"),
   ("push_child", "d1.rb1", "d1.span2"),
   ("push_child", "d1.rbc1", "d1.rb2"),
@@ -162,7 +165,7 @@ ALPHABET = [
   ("copy_to", "d1.p1", "d1.text1"),
 ]
 
-RULE = RULE % len(ALPHABET)
+RULE = (RULE % len(ALPHABET)).replace("{NN}", str(len(mu.NAMES)))
 
 # ------------------------------------------------------------------------------------------------ validation of cases
 
@@ -589,7 +592,8 @@ _OP_WEIGHTS = [("push_child", 30), ("push_children", 9), ("remove", 11), ("remov
                ("set_region", 10), ("put_region", 5), ("remove_region", 4), ("set_body", 3), ("set_style", 6), ("add_animation_step", 3),
                ("put_initial_value", 2), ("copy_to", 2)]
 _OP_POOL = [k for k, w in _OP_WEIGHTS for _ in range(w)]
-_FRAGMENTS = [("one", 66), ("move", 12), ("ref-remove", 4), ("ref-replace", 4), ("chain", 5), ("ruby", 3), ("move-doc", 3), ("rtc", 3)]
+_FRAGMENTS = [("one", 66), ("move", 12), ("ref-remove", 4), ("ref-replace", 4), ("chain", 5), ("ruby", 3), ("move-doc", 3), ("rtc", 3),
+              ("cycle", 4)]
 _FRAGMENT_POOL = [k for k, w in _FRAGMENTS for _ in range(w)]
 
 
@@ -623,6 +627,12 @@ def _fragment(draw):
   if f == "chain":
     b, dv, p, s, t = (_name(d, k, draw(st.integers(1, 2))) for k in ("Body", "Div", "P", "Span", "Text"))
     return [("set_body", d, b), ("push_child", b, dv), ("push_child", dv, p), ("push_child", p, s), ("push_child", s, t)]
+  if f == "cycle":
+    # a chain of three elements of a kind that may contain itself, then the head of the chain pushed under its tail (or its middle)
+    k = draw(st.sampled_from(("Div", "Span")))
+    a, b, c = draw(st.permutations([_name(d, k, 1), _name(d, k, 2), "%s.%s3" % (d, k.lower())]))
+    out = [("remove", a), ("push_child", a, b), ("push_child", b, c), ("push_child", draw(st.sampled_from([c, c, b])), a)]
+    return out if draw(st.booleans()) else out[1:]
   if f == "ruby":
     ruby = _name(d, "Ruby", i)
     return [("push_children", ruby, _pattern_items(draw, draw(st.sampled_from(mu.RUBY_PUSHABLE)), d, stray=0), "list"),
